@@ -158,6 +158,41 @@ def removeLoop : List (String × Bool) → T → Except Err T
       | .error e => .error e
     else removeLoop r t
 
+/-- `removeTip(tip, rooted)` since 50ed682: `rooted` is `Tree.Rooted()` of the tree `RemoveTips`
+    was called on; the only difference with `removeTip` (= `rooted` false) is that a root left with two
+    neighbours is kept (`len(internal.neigh) == 2 && !(rooted && internal == t.Root())`), so the root
+    of a rooted input is never suppressed. -/
+def removeTipR (rooted : Bool) (x : String) (t : T) : Except Err T :=
+  if !rooted then removeTip x t else
+  match t with
+  | .node d p kids =>
+    if kids.length == 1 && d.name == x then
+      match kids with
+      | [(_, c)] =>
+        (match c.kids with
+         | [a, b] => .ok (.node c.d 0 [a, b])
+         | ks => rootAfterLoss c.d 0 ks)
+      | _ => .error .rootTip
+    else
+      match rmKids x kids with
+      | .del _ [a, b] => .ok (.node d p [a, b])
+      | _ => removeTip x (.node d p kids)
+
+/-- `removeTip` before 50ed682 (no `rooted` argument): a trifurcating node that had become the root
+    of a rooted input was suppressed when it lost a child -/
+def removeTipPinnedUnrootedOnly (x : String) (t : T) : Except Err T := removeTip x t
+
+/-- the loop of `RemoveTips` with the flag computed once before the loop -/
+def removeLoopR (rooted : Bool) : List (String × Bool) → T → Except Err T
+  | [], t => .ok t
+  | (n, rm) :: r, t =>
+    if !(t.tipNames.contains n) then .error .notATip else
+    if rm then
+      match removeTipR rooted n t with
+      | .ok t' => removeLoopR rooted r t'
+      | .error e => .error e
+    else removeLoopR rooted r t
+
 /-- which tips `RemoveTips(revert, names…)` removes, in `Tips()` order -/
 def toRemove (t : T) (names : List String) (rev : Bool) : List String :=
   t.tipNames.filter fun n => names.contains n != rev
@@ -179,9 +214,9 @@ def hasDup : List String → Bool
 def updateTipIndex (t : T) : Except Err Index :=
   if hasDup t.tipNames then .error .dupIndex else .ok (sortNames t.tipNames)
 
-/-- `RemoveTips` (current code: the index is refreshed). -/
+/-- `RemoveTips` (current code: the index is refreshed; `rooted := t.Rooted()` before the loop). -/
 def removeTips (rev : Bool) (names : List String) (t : T) : Except Err (T × Index) :=
-  match removeLoop (workList t names rev) t with
+  match removeLoopR t.rooted (workList t names rev) t with
   | .error e => .error e
   | .ok t' =>
     match updateTipIndex t' with
